@@ -98,10 +98,22 @@ impl Key {
     }
 }
 
+/// The documented contract of the checked constructor, in every build: `from_any` panics for a
+/// handle of another archetype (part of the event log, so that builds can be compared).
+fn checked_conversion_refuses(what: &str, refused: bool) {
+    crate::rt::h(&[0xF4A1, refused as u64]);
+    if !refused {
+        crate::rt::violate("C03", "checked-conversion-accepted-other-archetype", format!("{}::from_any accepted a handle of another archetype without panicking", what));
+    }
+}
+
 pub fn typed<A: Archetype>(any: EntityAny) -> Entity<A> {
     match Entity::<A>::try_from(any) {
         Ok(e) => e,
-        Err(_) => Entity::<A>::from_any_unchecked(any),
+        Err(_) => {
+            checked_conversion_refuses("Entity<A>", crate::engine::catch(|| Entity::<A>::from_any(any)).is_err());
+            Entity::<A>::from_any_unchecked(any)
+        }
     }
 }
 
@@ -115,7 +127,10 @@ pub fn typed_overwrite<A: Archetype>(any: EntityAny, seed: EntityAny) -> Entity<
 pub fn dtyped<A: Archetype>(d: EntityDirectAny) -> EntityDirect<A> {
     match EntityDirect::<A>::try_from(d) {
         Ok(e) => e,
-        Err(_) => EntityDirect::<A>::from_any_unchecked(d),
+        Err(_) => {
+            checked_conversion_refuses("EntityDirect<A>", crate::engine::catch(|| EntityDirect::<A>::from_any(d)).is_err());
+            EntityDirect::<A>::from_any_unchecked(d)
+        }
     }
 }
 
